@@ -1,5 +1,585 @@
-use crate::Ctx;
+//! C03 - datagrams without the agreed token are inert.
+//!
+//! Generator: a history brings an endpoint E into a state with a fixed token; then one foreign
+//! datagram D (every packet kind written with a wrong token, a real peer datagram re-written with a
+//! wrong token, mutations of those, random bytes); then a suffix of ordinary ops.
+//! Oracle: non-interference. Feeding D yields no event, no outgoing datagram and leaves the complete
+//! state fingerprint unchanged; the run with D and the run without D are indistinguishable through
+//! the suffix (events, datagrams, deadlines). Acceptor tokens are never a reserved value even when
+//! secure_random is scripted adversarially.
 
-pub fn run(_ctx: &Ctx) {
-    // not built yet
+use crate::netsim::*;
+use crate::util::{hex, Warnings};
+use crate::{pick, Ctx, Outcome, PResult};
+use arrayvec::ArrayVec;
+use proptest::prelude::*;
+use serde::{Deserialize, Serialize};
+
+#[derive(Clone, Debug, Hash, Serialize, Deserialize)]
+pub enum TokenChoice {
+    Random([u8; 4]),
+    FlipBit(u8),
+    AllOnes,
+    AllZero,
+    NoToken,
+}
+
+#[derive(Clone, Debug, Hash, Serialize, Deserialize)]
+pub enum AckChoice {
+    Abs(u16),
+    /// the newest sequence number E has sent (would acknowledge everything)
+    Newest,
+    NewestMinus(u8),
+}
+
+#[derive(Clone, Debug, Hash, Serialize, Deserialize)]
+pub enum SeqChoice {
+    /// the sequence number E expects next
+    Next,
+    Abs(u16),
+}
+
+#[derive(Clone, Debug, Hash, Serialize, Deserialize)]
+pub enum Kind {
+    KeepAlive,
+    Connect,
+    /// 0.6 ConnectAccept / 0.7 Token response
+    ConnectAcceptOrToken,
+    Accept,
+    Close(u8),
+    Chunks {
+        request_resend: bool,
+        chunks: Vec<(Option<SeqChoice>, u8)>,
+        compressible: bool,
+    },
+}
+
+#[derive(Clone, Debug, Hash, Serialize, Deserialize)]
+pub enum Mutation {
+    Truncate(u16),
+    Xor { pos: u16, xor: u8 },
+    Extend(Vec<u8>),
+}
+
+#[derive(Clone, Debug, Hash, Serialize, Deserialize)]
+pub enum Foreign {
+    Written { kind: Kind, token: TokenChoice, ack: AckChoice, mutation: Option<Mutation> },
+    Replayed { idx: u16, token: TokenChoice, mutation: Option<Mutation> },
+    Random(Vec<u8>),
+}
+
+#[derive(Clone, Debug, Hash, Serialize, Deserialize)]
+pub struct Case {
+    pub prefix: Vec<Op>,
+    pub target: u8,
+    pub foreign: Vec<Foreign>,
+    pub suffix: Vec<Op>,
+    pub script: Vec<[u8; 4]>,
+}
+
+fn token_choice() -> BoxedStrategy<TokenChoice> {
+    prop_oneof![
+        3 => any::<[u8; 4]>().prop_map(TokenChoice::Random),
+        3 => (0u8..32).prop_map(TokenChoice::FlipBit),
+        1 => Just(TokenChoice::AllOnes),
+        1 => Just(TokenChoice::AllZero),
+        1 => Just(TokenChoice::NoToken),
+    ]
+    .boxed()
+}
+
+fn kind_strategy() -> BoxedStrategy<Kind> {
+    let chunk = (proptest::option::weighted(0.7, prop_oneof![3 => Just(SeqChoice::Next), 1 => (0u16..1024).prop_map(SeqChoice::Abs)]), 0u8..40);
+    prop_oneof![
+        1 => Just(Kind::KeepAlive),
+        1 => Just(Kind::Connect),
+        1 => Just(Kind::ConnectAcceptOrToken),
+        1 => Just(Kind::Accept),
+        2 => (0u8..=127).prop_map(Kind::Close),
+        6 => (any::<bool>(), proptest::collection::vec(chunk, 0..5), any::<bool>())
+            .prop_map(|(request_resend, chunks, compressible)| Kind::Chunks { request_resend, chunks, compressible }),
+    ]
+    .boxed()
+}
+
+fn mutation_strategy() -> BoxedStrategy<Option<Mutation>> {
+    proptest::option::weighted(
+        0.3,
+        prop_oneof![
+            any::<u16>().prop_map(Mutation::Truncate),
+            (any::<u16>(), 1u8..=255).prop_map(|(pos, xor)| Mutation::Xor { pos, xor }),
+            proptest::collection::vec(any::<u8>(), 1..8).prop_map(Mutation::Extend),
+        ],
+    )
+    .boxed()
+}
+
+fn foreign_strategy() -> BoxedStrategy<Foreign> {
+    let ack = prop_oneof![
+        2 => (0u16..1024).prop_map(AckChoice::Abs),
+        3 => Just(AckChoice::Newest),
+        2 => (0u8..20).prop_map(AckChoice::NewestMinus),
+    ];
+    prop_oneof![
+        6 => (kind_strategy(), token_choice(), ack, mutation_strategy())
+            .prop_map(|(kind, token, ack, mutation)| Foreign::Written { kind, token, ack, mutation }),
+        3 => (any::<u16>(), token_choice(), mutation_strategy()).prop_map(|(idx, token, mutation)| Foreign::Replayed { idx, token, mutation }),
+        1 => proptest::collection::vec(any::<u8>(), 0..60).prop_map(Foreign::Random),
+    ]
+    .boxed()
+}
+
+/// Prefixes that stop the handshake at every stage, or continue into an online history.
+fn prefix_strategy(max_ops: usize) -> BoxedStrategy<Vec<Op>> {
+    let partial = (0usize..8).prop_map(|n| {
+        // Connect then n alternating single deliveries: reaches every half-connected state
+        let mut v = vec![Op::Connect];
+        for i in 0..n {
+            v.push(Op::Deliver { dir: (i % 2) as u8, k: 0 });
+        }
+        v
+    });
+    prop_oneof![
+        2 => partial,
+        5 => history_strategy(1000, max_ops, false),
+    ]
+    .boxed()
+}
+
+fn case_strategy(max_ops: usize) -> impl Strategy<Value = Case> {
+    (
+        prefix_strategy(max_ops),
+        0u8..2,
+        proptest::collection::vec(foreign_strategy(), 1..4),
+        proptest::collection::vec(op_strategy(1000), 0..20),
+        proptest::collection::vec(prop_oneof![2 => Just([0xffu8; 4]), 2 => Just([0u8; 4]), 1 => any::<[u8; 4]>()], 0..5),
+    )
+        .prop_map(|(prefix, target, foreign, suffix, script)| Case { prefix, target, foreign, suffix, script })
+}
+
+fn parse_hex_after(fp: &str, key: &str) -> Option<[u8; 4]> {
+    let i = fp.find(key)? + key.len();
+    let h = fp.get(i..i + 8)?;
+    let v = u32::from_str_radix(h, 16).ok()?;
+    Some(v.to_be_bytes())
+}
+
+fn parse_num_after(fp: &str, key: &str) -> Option<u16> {
+    let i = fp.find(key)? + key.len();
+    let rest = &fp[i..];
+    let end = rest.find(|c: char| !c.is_ascii_digit())?;
+    rest[..end].parse().ok()
+}
+
+/// (agreed token, ack (next expected - 1), newest sequence sent)
+fn endpoint_view<P: Proto>(conn: &P::Conn) -> (Option<[u8; 4]>, u16, u16) {
+    let fp = P::fingerprint(conn);
+    let token = if P::IS7 { parse_hex_after(&fp, "own_token: ") } else { parse_hex_after(&fp, "token: Some(") };
+    let ack = parse_num_after(&fp, "ack: Sequence { seq: ").unwrap_or(0);
+    let seq = parse_num_after(&fp, "sequence: Sequence { seq: ").unwrap_or(0);
+    (token, ack, seq)
+}
+
+fn apply_token(choice: &TokenChoice, agreed: [u8; 4]) -> Option<[u8; 4]> {
+    let t = match choice {
+        TokenChoice::Random(t) => *t,
+        TokenChoice::FlipBit(b) => {
+            let mut t = agreed;
+            t[(*b / 8) as usize % 4] ^= 1 << (b % 8);
+            t
+        }
+        TokenChoice::AllOnes => [0xff; 4],
+        TokenChoice::AllZero => [0; 4],
+        TokenChoice::NoToken => return None,
+    };
+    if t == agreed {
+        let mut t = t;
+        t[0] ^= 0x80;
+        return Some(t);
+    }
+    Some(t)
+}
+
+fn mutate(mut d: Vec<u8>, m: &Option<Mutation>) -> Vec<u8> {
+    match m {
+        None => {}
+        Some(Mutation::Truncate(k)) => {
+            let n = pick(*k, d.len() + 1);
+            d.truncate(n);
+        }
+        Some(Mutation::Xor { pos, xor }) => {
+            if !d.is_empty() {
+                let p = pick(*pos, d.len());
+                d[p] ^= xor;
+            }
+        }
+        Some(Mutation::Extend(e)) => d.extend_from_slice(e),
+    }
+    d
+}
+
+fn chunk_payload(chunks: &[(Option<SeqChoice>, u8)], next_seq: u16, compressible: bool, is7: bool) -> (u8, Vec<u8>) {
+    let mut buf: ArrayVec<[u8; 2048]> = ArrayVec::new();
+    let mut n = 0u8;
+    for (i, (vital, len)) in chunks.iter().enumerate() {
+        let data: Vec<u8> = (0..*len).map(|j| if compressible { 0 } else { (j.wrapping_mul(37) ^ (i as u8) ^ 0x5b) }).collect();
+        let vital = vital.as_ref().map(|s| {
+            (
+                match s {
+                    SeqChoice::Next => (next_seq + i as u16) % 1024,
+                    SeqChoice::Abs(a) => *a % 1024,
+                },
+                false,
+            )
+        });
+        let r = if is7 {
+            libtw2_net::protocol7::write_chunk(&data, vital, &mut buf).map(|_| ())
+        } else {
+            libtw2_net::protocol::write_chunk(&data, vital, &mut buf).map(|_| ())
+        };
+        if r.is_ok() {
+            n += 1;
+        }
+    }
+    (n, buf.to_vec())
+}
+
+/// Build the foreign datagram for endpoint E. Returns None if nothing sensible can be built.
+fn build_foreign<P: Proto>(f: &Foreign, agreed: [u8; 4], e_ack: u16, e_seq: u16, peer_history: &[Vec<u8>]) -> Option<Vec<u8>> {
+    let mut out = [0u8; 2048];
+    match f {
+        Foreign::Random(b) => Some(b.clone()),
+        Foreign::Written { kind, token, ack, mutation } => {
+            let ack = match ack {
+                AckChoice::Abs(a) => *a % 1024,
+                AckChoice::Newest => e_seq,
+                AckChoice::NewestMinus(d) => (e_seq + 1024 - *d as u16) % 1024,
+            };
+            let tok = apply_token(token, agreed);
+            let next_seq = (e_ack + 1) % 1024;
+            let reason: Vec<u8>;
+            let payload: (u8, Vec<u8>);
+            let d = if P::IS7 {
+                use libtw2_net::protocol7::*;
+                let tok = Token(tok.unwrap_or([0xff; 4]));
+                let tok = if tok.0 == agreed { Token([agreed[0] ^ 1, agreed[1], agreed[2], agreed[3]]) } else { tok };
+                let type_ = match kind {
+                    Kind::KeepAlive => ConnectedPacketType::Control(ControlPacket::KeepAlive),
+                    Kind::Connect => ConnectedPacketType::Control(ControlPacket::Connect(Token([1, 2, 3, 4]))),
+                    Kind::ConnectAcceptOrToken => ConnectedPacketType::Control(ControlPacket::Token(Token([9, 8, 7, 6]))),
+                    Kind::Accept => ConnectedPacketType::Control(ControlPacket::Accept),
+                    Kind::Close(n) => {
+                        reason = (0..*n).map(|i| b'A' + i % 26).collect();
+                        ConnectedPacketType::Control(ControlPacket::Close(&reason))
+                    }
+                    Kind::Chunks { request_resend, chunks, compressible } => {
+                        payload = chunk_payload(chunks, next_seq, *compressible, true);
+                        ConnectedPacketType::Chunks(*request_resend, payload.0, &payload.1)
+                    }
+                };
+                Packet::Connected(ConnectedPacket { ack, token: tok, type_ }).write(&mut out[..]).ok()?.to_vec()
+            } else {
+                use libtw2_net::protocol::*;
+                let tok = tok.map(Token);
+                let type_ = match kind {
+                    Kind::KeepAlive => ConnectedPacketType::Control(ControlPacket::KeepAlive),
+                    Kind::Connect => ConnectedPacketType::Control(ControlPacket::Connect),
+                    Kind::ConnectAcceptOrToken => ConnectedPacketType::Control(ControlPacket::ConnectAccept),
+                    Kind::Accept => ConnectedPacketType::Control(ControlPacket::Accept),
+                    Kind::Close(n) => {
+                        reason = (0..*n).map(|i| b'A' + i % 26).collect();
+                        ConnectedPacketType::Control(ControlPacket::Close(&reason))
+                    }
+                    Kind::Chunks { request_resend, chunks, compressible } => {
+                        payload = chunk_payload(chunks, next_seq, *compressible, false);
+                        ConnectedPacketType::Chunks(*request_resend, payload.0, &payload.1)
+                    }
+                };
+                Packet::Connected(ConnectedPacket { ack, token: tok, type_ }).write(&mut out[..]).ok()?.to_vec()
+            };
+            Some(mutate(d, mutation))
+        }
+        Foreign::Replayed { idx, token, mutation } => {
+            if peer_history.is_empty() {
+                return None;
+            }
+            let orig = &peer_history[pick(*idx, peer_history.len())];
+            let tok = apply_token(token, agreed);
+            let mut scratch = [0u8; 2048];
+            let mut w = Warnings::new();
+            let d = if P::IS7 {
+                use libtw2_net::protocol7::*;
+                match Packet::read(&mut w, orig, &mut scratch[..]).ok()? {
+                    Packet::Connected(mut c) => {
+                        let t = tok.unwrap_or([0xff; 4]);
+                        c.token = Token(if t == agreed { [t[0] ^ 1, t[1], t[2], t[3]] } else { t });
+                        if let ConnectedPacketType::Control(ControlPacket::Token(_)) = c.type_ {
+                            // writer pads token requests; keep as is
+                        }
+                        Packet::Connected(c).write(&mut out[..]).ok()?.to_vec()
+                    }
+                    Packet::Connless(_) => return None,
+                }
+            } else {
+                use libtw2_net::protocol::*;
+                match Packet::read(&mut w, orig, Some(true), &mut scratch[..]).ok()? {
+                    Packet::Connected(mut c) => {
+                        c.token = tok.map(Token);
+                        Packet::Connected(c).write(&mut out[..]).ok()?.to_vec()
+                    }
+                    Packet::Connless(_) => return None,
+                }
+            };
+            Some(mutate(d, mutation))
+        }
+    }
+}
+
+#[derive(PartialEq)]
+enum Class {
+    /// carries exactly the agreed token: not foreign
+    NotForeign,
+    Connless,
+    /// well-formed connection-oriented packet with another token (or none)
+    WellFormed(&'static str),
+    /// the documented exception: 0.7 token request with the all-ones token
+    TokenRequest,
+    Garbage,
+}
+
+fn classify_foreign<P: Proto>(d: &[u8], agreed: [u8; 4]) -> Class {
+    let mut scratch = [0u8; 2048];
+    let mut w = Warnings::new();
+    if P::IS7 {
+        use libtw2_net::protocol7::*;
+        match Packet::read(&mut w, d, &mut scratch[..]) {
+            Ok(Packet::Connless(_)) => Class::Connless,
+            Ok(Packet::Connected(c)) => {
+                if c.token.0 == agreed {
+                    return Class::NotForeign;
+                }
+                match c.type_ {
+                    ConnectedPacketType::Control(ControlPacket::Token(_)) if c.token == TOKEN_NONE => Class::TokenRequest,
+                    ConnectedPacketType::Control(ControlPacket::KeepAlive) => Class::WellFormed("keepalive"),
+                    ConnectedPacketType::Control(ControlPacket::Connect(_)) => Class::WellFormed("connect"),
+                    ConnectedPacketType::Control(ControlPacket::Accept) => Class::WellFormed("accept"),
+                    ConnectedPacketType::Control(ControlPacket::Close(_)) => Class::WellFormed("close"),
+                    ConnectedPacketType::Control(ControlPacket::Token(_)) => Class::WellFormed("token"),
+                    ConnectedPacketType::Chunks(..) => Class::WellFormed("chunks"),
+                }
+            }
+            Err(_) => Class::Garbage,
+        }
+    } else {
+        use libtw2_net::protocol::*;
+        // told the connection's token mode (a token is expected)
+        match Packet::read(&mut w, d, Some(true), &mut scratch[..]) {
+            Ok(Packet::Connless(_)) => Class::Connless,
+            Ok(Packet::Connected(c)) => {
+                if c.token.map(|t| t.0) == Some(agreed) {
+                    return Class::NotForeign;
+                }
+                match c.type_ {
+                    ConnectedPacketType::Control(ControlPacket::KeepAlive) => Class::WellFormed("keepalive"),
+                    ConnectedPacketType::Control(ControlPacket::Connect) => Class::WellFormed("connect"),
+                    ConnectedPacketType::Control(ControlPacket::ConnectAccept) => Class::WellFormed("connectaccept"),
+                    ConnectedPacketType::Control(ControlPacket::Accept) => Class::WellFormed("accept"),
+                    ConnectedPacketType::Control(ControlPacket::Close(_)) => Class::WellFormed("close"),
+                    ConnectedPacketType::Chunks(..) => Class::WellFormed("chunks"),
+                }
+            }
+            Err(_) => Class::Garbage,
+        }
+    }
+}
+
+fn run_case<P: Proto>(c: &Case) -> PResult {
+    let mut sim: Sim<P> = Sim::new(0xC03, false);
+    sim.max_len = 1000;
+    sim.log_sent = true;
+    sim.cb[1].script = c.script.clone();
+    sim.cb[0].script = c.script.iter().rev().cloned().collect();
+    let mut history: [Vec<Vec<u8>>; 2] = [Vec::new(), Vec::new()];
+    let mut out = Outcome::default();
+    for op in &c.prefix {
+        if sim.step(op).is_err() {
+            return Ok(out.class("aborted_by_other_oracle"));
+        }
+        for dg in std::mem::take(&mut sim.sent_log) {
+            history[dg.side].push(dg.data);
+        }
+    }
+    // reserved tokens: whatever the acceptor fixed as its token must not be a reserved value
+    {
+        let (tok, _, _) = endpoint_view::<P>(&sim.ends[1]);
+        if let Some(t) = tok {
+            let reserved = t == [0xff; 4] || (!P::IS7 && t == [0; 4]);
+            if reserved {
+                return Err(format!("{}: the accepting side handed out the reserved token {} (secure_random script {:?})", P::NAME, hex(&t), c.script));
+            }
+            out = out.class("acceptor_token_checked");
+            if c.script.iter().any(|s| *s == [0xff; 4] || *s == [0; 4]) && sim.cb[1].random_calls > 1 {
+                out = out.class("reserved_value_offered_by_rng");
+            }
+        }
+    }
+    let e = c.target as usize & 1;
+    let (agreed, e_ack, e_seq) = endpoint_view::<P>(&sim.ends[e]);
+    let Some(agreed) = agreed else {
+        return Ok(out.class("target_has_no_token_yet"));
+    };
+    let (state, unacked, queued, _) = P::summary(&sim.ends[e]);
+    let mut twin = sim.snapshot();
+    let mut any_wellformed = false;
+    let mut fed = 0;
+    for f in &c.foreign {
+        let Some(d) = build_foreign::<P>(f, agreed, e_ack, e_seq, &history[1 - e]) else {
+            out = out.class("foreign_not_buildable");
+            continue;
+        };
+        let class = classify_foreign::<P>(&d, agreed);
+        match class {
+            Class::NotForeign => {
+                out = out.class("skipped_not_foreign");
+                continue;
+            }
+            Class::Connless => {
+                out = out.class("skipped_connless");
+                continue;
+            }
+            _ => {}
+        }
+        let before = P::fingerprint(&twin.ends[e]);
+        let sent_before = twin.stats.datagrams;
+        let ev_before = twin.events[e].len();
+        let net_before = twin.net[e].len();
+        if let Err(f) = twin.feed(e, &d) {
+            if f.oracle == "panic" || f.oracle == "termination" {
+                return Ok(out.class("aborted_by_other_oracle"));
+            }
+            // model failures (e.g. an unsent chunk delivered) are exactly what C03 forbids
+            return Err(format!("{}: foreign datagram [{}] fed to side {} in state {}: [{}] {}", P::NAME, hex(&d), e, state, f.oracle, f.msg));
+        }
+        fed += 1;
+        let after = P::fingerprint(&twin.ends[e]);
+        let exception = class == Class::TokenRequest && state == "PendingConnect";
+        if exception {
+            out = out.class("documented_exception_token_request");
+            if parse_hex_after(&after, "own_token: ") != Some(agreed) {
+                return Err(format!("0.7: unauthenticated token request changed the acceptor's own token in PendingConnect ({} -> {})", before, after));
+            }
+            // the reply goes to the requester; drop it so that the twin comparison continues
+            twin.net[e].truncate(net_before);
+            twin.serial = sim.serial;
+            twin.sent_log.clear();
+            twin.stats.datagrams = sent_before;
+            continue;
+        }
+        if twin.events[e].len() != ev_before {
+            return Err(format!(
+                "{}: datagram [{}] without the agreed token {} produced application events {:?} on side {} (state {})",
+                P::NAME, hex(&d), hex(&agreed), &twin.events[e][ev_before..], e, state
+            ));
+        }
+        if twin.stats.datagrams != sent_before {
+            return Err(format!(
+                "{}: datagram [{}] without the agreed token {} triggered {} outgoing datagram(s) on side {} (state {})",
+                P::NAME, hex(&d), hex(&agreed), twin.stats.datagrams - sent_before, e, state
+            ));
+        }
+        if before != after {
+            return Err(format!(
+                "{}: datagram [{}] without the agreed token {} changed the state of side {}:\n before: {}\n after:  {}",
+                P::NAME, hex(&d), hex(&agreed), e, trunc(&before), trunc(&after)
+            ));
+        }
+        if let Class::WellFormed(k) = class {
+            any_wellformed = true;
+            out = out.class(match k {
+                "keepalive" => "wellformed_keepalive",
+                "connect" => "wellformed_connect",
+                "connectaccept" => "wellformed_connectaccept",
+                "accept" => "wellformed_accept",
+                "close" => "wellformed_close",
+                "token" => "wellformed_token",
+                _ => "wellformed_chunks",
+            });
+        } else {
+            out = out.class("garbage_or_mutated");
+        }
+    }
+    twin.sent_log.clear();
+    sim.sent_log.clear();
+    // twin run through the suffix: identical observable behaviour
+    if fed > 0 {
+        for (i, op) in c.suffix.iter().enumerate() {
+            let ea = sim.events.iter().map(|v| v.len()).collect::<Vec<_>>();
+            let eb = twin.events.iter().map(|v| v.len()).collect::<Vec<_>>();
+            let ra = sim.step(op);
+            let rb = twin.step(op);
+            if ra.is_err() || rb.is_err() {
+                if ra.is_err() != rb.is_err() {
+                    return Err(format!("{}: suffix op #{} {:?} fails only in one of the twin runs", P::NAME, i, op));
+                }
+                out = out.class("aborted_by_other_oracle");
+                break;
+            }
+            let sa: Vec<_> = std::mem::take(&mut sim.sent_log).into_iter().map(|d| (d.side, d.data)).collect();
+            let sb: Vec<_> = std::mem::take(&mut twin.sent_log).into_iter().map(|d| (d.side, d.data)).collect();
+            if sa != sb {
+                return Err(format!("{}: after the foreign datagram(s) the endpoint behaves differently: suffix op #{} {:?} sends {:?} vs {:?} without them", P::NAME, i, op, sb.iter().map(|(s, d)| (s, hex(d))).collect::<Vec<_>>(), sa.iter().map(|(s, d)| (s, hex(d))).collect::<Vec<_>>()));
+            }
+            for s in 0..2 {
+                if sim.events[s][ea[s]..] != twin.events[s][eb[s]..] {
+                    return Err(format!("{}: after the foreign datagram(s) suffix op #{} {:?} yields different events on side {}", P::NAME, i, op, s));
+                }
+                if P::needs_tick(&sim.ends[s]) != P::needs_tick(&twin.ends[s]) {
+                    return Err(format!("{}: after the foreign datagram(s) suffix op #{} {:?}: different deadline on side {}", P::NAME, i, op, s));
+                }
+            }
+        }
+        for s in 0..2 {
+            if P::fingerprint(&sim.ends[s]) != P::fingerprint(&twin.ends[s]) {
+                return Err(format!("{}: twin runs end in different states on side {}", P::NAME, s));
+            }
+        }
+    }
+    out.nontrivial = any_wellformed && (unacked > 0 || queued > 0);
+    Ok(out
+        .class(match state {
+            "Online" => "state_online",
+            "Pending" => "state_pending",
+            "PendingConnect" => "state_pendingconnect",
+            "Connecting" => "state_connecting",
+            "Token" => "state_token",
+            _ => "state_other",
+        })
+        .class_if(e == 0, "target_connector")
+        .class_if(e == 1, "target_acceptor")
+        .class_if(unacked > 0, "target_had_unacked")
+        .class_if(queued > 0, "target_had_queued"))
+}
+
+fn trunc(s: &str) -> String {
+    if s.len() > 600 {
+        format!("{}...", &s[..600])
+    } else {
+        s.to_string()
+    }
+}
+
+pub fn run(ctx: &Ctx) {
+    ctx.set_rule(
+        "case = (prefix history incl. handshakes stopped at every stage, target side, 1..3 foreign datagrams, suffix ops, secure_random script); \
+         foreign datagram = every packet kind written by the library writer with a wrong token (random / one-bit flip of the agreed one / all-ones / \
+         all-zero / none), or a datagram the peer really sent re-written with a wrong token, optionally truncated / byte-flipped / extended, or random \
+         bytes; datagrams that decode (library reader) to the agreed token or to a connectionless packet are skipped and counted; non-trivial = a \
+         foreign datagram that parses as a well-formed connection-oriented packet was fed while the target had unacknowledged or queued chunks; \
+         distinct by hash of the case",
+    );
+    ctx.assume("complete endpoint state = Debug rendering of the connection state + send timer (verif_fingerprint hook); twin runs share clock and randomness");
+    ctx.assume("0.6 without token has no agreed token: not in scope of the statement; 0.7 connectionless packets with a wrong token are not asserted");
+    let max_ops = ctx.n(80, 300) as usize;
+    ctx.prop("foreign/v6token", ctx.n(6000, 150_000), || case_strategy(max_ops), |c: &Case| run_case::<P6>(c));
+    ctx.prop("foreign/v7", ctx.n(6000, 150_000), || case_strategy(max_ops), |c: &Case| run_case::<P7>(c));
 }
